@@ -2,5 +2,6 @@ import IQE.Props.C20
 open IQE.Props.C20
 #print axioms C20_inprocess
 #print axioms C20_crossprocess_partial
+#print axioms C20_crossprocess_of_shared_lock
 #print axioms C20_crossprocess_witness
 #print axioms C20_roundtrip_partial
